@@ -8,6 +8,7 @@ package main
 
 import (
 	"bytes"
+	"context"
 	"encoding/json"
 	"flag"
 	"fmt"
@@ -743,9 +744,13 @@ func doCheck(repo, verif, prop string, pc propConf, tier string, seed uint64, wo
 			var mout []byte
 			merr := fmt.Errorf("minimisation budget of this invocation used up")
 			if time.Since(minStart) < 8*time.Minute {
-				mc := exec.Command(bin, "-mode", "minimize", "-file", raw, "-out", final)
+				// hard limit per minimiser process: its own deadline is only looked at between
+				// candidates, and one candidate of a 66 000-message scenario can take minutes
+				mctx, mcancel := context.WithTimeout(context.Background(), 4*time.Minute)
+				mc := exec.CommandContext(mctx, bin, "-mode", "minimize", "-file", raw, "-out", final)
 				mc.Env = append(os.Environ(), "GOMAXPROCS=1", "GOMEMLIMIT=3GiB")
 				mout, merr = mc.CombinedOutput()
+				mcancel()
 			}
 			minimised := merr == nil
 			if minimised {
